@@ -673,7 +673,7 @@ def hook_family(out, family, clauses, nontrivial, rule, spec="TraceHook"):
 
 
 C07_CLAUSES = {"script", "carried", "recon", "panic", "noreturn", "after_finish", "finish_twice", "no_finish",
-               "ret_error", "afterexpiry", "never_eq", "plumbing"}
+               "ret_error", "afterexpiry", "probe_gap", "never_eq", "plumbing"}
 
 
 @prop("C07")
